@@ -37,7 +37,7 @@ class Inconclusive(Exception):
 
 
 class Clause(object):
-    def __init__(self, name, strategy, run, quick, thorough, rule, exhaustive=None, watchdog=60):
+    def __init__(self, name, strategy, run, quick, thorough, rule, exhaustive=None, watchdog=60, crossproc=False):
         self.name = name
         self.strategy = strategy        # callable(tier) -> hypothesis strategy of JSON-able cases
         self.run = run                  # callable(case) -> info dict {"nt":bool,"cls":[..],"out":..}
@@ -45,6 +45,7 @@ class Clause(object):
         self.rule = rule
         self.exhaustive = exhaustive    # callable(tier) -> (description, iterable of cases) or None
         self.watchdog = watchdog
+        self.crossproc = crossproc      # same cases in every worker; result signatures compared across hash seeds by the parent
 
 
 def digest(case):
@@ -96,6 +97,7 @@ class ClauseRunner(object):
         self.errors = []
         self.last_fail = None
         self.slowest_case = None
+        self.sigs = {}
 
     # -- one evaluation ------------------------------------------------------------
     def evaluate(self, case, raising=True):
@@ -135,6 +137,8 @@ class ClauseRunner(object):
             st["classes"][c] = st["classes"].get(c, 0) + 1
         if "events" in info:
             st["max_line_events"] = max(st["max_line_events"], info["events"])
+        if self.clause.crossproc and "sig" in info:
+            self.sigs[digest(case)] = {"sig": info["sig"], "case": case}
         if info.get("nt"):
             d = digest(case)
             if d not in self.nt_digests:
@@ -152,7 +156,7 @@ class ClauseRunner(object):
         strat = self.clause.strategy(self.tier)
         for rnd in range(5):
             self.last_fail = None
-            seed = derive_seed(self.vseed, self.prop, self.cidx, self.widx)
+            seed = derive_seed(self.vseed, self.prop, self.cidx, 0 if self.clause.crossproc else self.widx)
 
             @hypothesis.seed(seed)
             @settings(max_examples=n, database=None, deadline=None, derandomize=False,
@@ -217,5 +221,5 @@ class ClauseRunner(object):
 
     def result(self):
         return {"clause": self.clause.name, "stats": self.stats, "nt_digests": sorted(self.nt_digests),
-                "samples": self.samples, "slowest_case": self.slowest_case, "failures": self.failures, "errors": self.errors,
+                "samples": self.samples, "sigs": self.sigs, "slowest_case": self.slowest_case, "failures": self.failures, "errors": self.errors,
                 "rule": self.clause.rule}
